@@ -1,4 +1,4 @@
-import Netpoll.Buf.Model
+import Netpoll.Buf.Step
 import Std.Data.HashMap
 /-! Line-protocol driver for the LinkBuffer model (T-diff). Reads op lines, prints one reply line per op. -/
 open Netpoll.Buf
@@ -47,13 +47,13 @@ def panicOut : M String := do
   modify fun w => { w with dead := true }
   return "panic"
 
-/-- run a single-buffer op -/
-def on1 (id : Nat) (f : Cfg → LB UInt8 → Option (LB UInt8 × Res UInt8)) : M String := do
+/-- run a single-buffer op (`LB.step`) -/
+def on1 (id : Nat) (op : Op UInt8) : M String := do
   let w ← get
   match w.bufs.get? id with
   | none => return "nobuf"
   | some b =>
-    match f w.cfg b with
+    match b.step w.cfg op with
     | none => panicOut
     | some (b', r) =>
       set { w with bufs := w.bufs.insert id b' }
@@ -76,50 +76,44 @@ def step (line : String) : M String := do
     set { w with bufs := w.bufs.insert (toNat! id) (newLB w.cfg (toInt! size).toNat) }
     reply "ok" [toNat! id]
   | ["mal", id, n, seed] =>
-    on1 (toNat! id) fun cfg b => b.malloc cfg (toInt! n) (genBytes (toNat! seed) (toInt! n).toNat)
+    on1 (toNat! id) (.malloc (toInt! n) (genBytes (toNat! seed) (toInt! n).toNat))
   | ["wbin", id, n, seed, pcap] =>
-    on1 (toNat! id) fun cfg b => b.writeBinary cfg (genBytes (toNat! seed) (toNat! n)) (toNat! pcap)
+    on1 (toNat! id) (.writeBinary (genBytes (toNat! seed) (toNat! n)) (toNat! pcap))
   | ["wstr", id, n, seed] =>
     -- WriteString: empty string returns (0, nil) without touching anything; else WriteBinary with cap = len
-    on1 (toNat! id) fun cfg b => b.writeBinary cfg (genBytes (toNat! seed) (toNat! n)) (toNat! n)
-  | ["wbyte", id, v] =>
-    on1 (toNat! id) fun cfg b => b.malloc cfg 1 [UInt8.ofNat (toNat! v)]
+    on1 (toNat! id) (.writeBinary (genBytes (toNat! seed) (toNat! n)) (toNat! n))
+  | ["wbyte", id, v] => on1 (toNat! id) (.writeByte (UInt8.ofNat (toNat! v)))
   | ["wdir", id, n, seed, ecap, remain] =>
-    on1 (toNat! id) fun cfg b => b.writeDirect cfg (genBytes (toNat! seed) (toNat! n)) (toNat! ecap) (toInt! remain)
-  | ["ack", id, n] => on1 (toNat! id) fun _ b => b.mallocAck (toInt! n)
-  | ["flush", id] => on1 (toNat! id) fun cfg b => b.flush cfg
-  | ["next", id, n] => on1 (toNat! id) fun cfg b => b.next cfg (toInt! n)
-  | ["peek", id, n] => on1 (toNat! id) fun cfg b => b.peek cfg (toInt! n)
-  | ["skip", id, n] => on1 (toNat! id) fun _ b => b.skip (toInt! n)
-  | ["rbin", id, n] => on1 (toNat! id) fun _ b => b.readBinary (toInt! n)
-  | ["rstr", id, n] => on1 (toNat! id) fun _ b => b.readBinary (toInt! n)
-  | ["rbyte", id] => on1 (toNat! id) fun _ b => b.readByte
-  | ["until", id, c] => on1 (toNat! id) fun cfg b => b.until cfg (UInt8.ofNat (toNat! c))
-  | ["read", id, n] => on1 (toNat! id) fun _ b => b.readCopy (toNat! n)
-  | ["rel", id] => on1 (toNat! id) fun _ b => b.release
-  | ["close", id] => on1 (toNat! id) fun _ b => b.close
-  | ["len", id] => on1 (toNat! id) fun _ b => some (b, .num b.length)
-  | ["mlen", id] => on1 (toNat! id) fun _ b => some (b, .num b.mallocSize)
-  | ["bytes", id] => on1 (toNat! id) fun _ b => (b.bytes).map fun r => (b, r)
-  | ["getbytes", id, k] => on1 (toNat! id) fun _ b => b.getBytes (toNat! k)
-  | ["idx", id, c, skip] =>
-    on1 (toNat! id) fun _ b => (b.indexByte (UInt8.ofNat (toNat! c)) (toNat! skip)).map fun i => (b, .num i)
-  | ["cmax", id] => on1 (toNat! id) fun _ b => b.calcMaxSize.map fun n => (b, .num n)
-  | ["rtail", id, ms] => on1 (toNat! id) fun cfg b => (b.resetTail cfg (toNat! ms)).map fun b => (b, .unit)
+    on1 (toNat! id) (.writeDirect (genBytes (toNat! seed) (toNat! n)) (toNat! ecap) (toInt! remain))
+  | ["ack", id, n] => on1 (toNat! id) (.mallocAck (toInt! n))
+  | ["flush", id] => on1 (toNat! id) .flush
+  | ["next", id, n] => on1 (toNat! id) (.next (toInt! n))
+  | ["peek", id, n] => on1 (toNat! id) (.peek (toInt! n))
+  | ["skip", id, n] => on1 (toNat! id) (.skip (toInt! n))
+  | ["rbin", id, n] => on1 (toNat! id) (.readBinary (toInt! n))
+  | ["rstr", id, n] => on1 (toNat! id) (.readBinary (toInt! n))
+  | ["rbyte", id] => on1 (toNat! id) .readByte
+  | ["until", id, c] => on1 (toNat! id) (.until (UInt8.ofNat (toNat! c)))
+  | ["read", id, n] => on1 (toNat! id) (.readCopy (toNat! n))
+  | ["rel", id] => on1 (toNat! id) .release
+  | ["close", id] => on1 (toNat! id) .close
+  | ["len", id] => on1 (toNat! id) .len
+  | ["mlen", id] => on1 (toNat! id) .mallocLen
+  | ["bytes", id] => on1 (toNat! id) .bytes
+  | ["getbytes", id, k] => on1 (toNat! id) (.getBytes (toNat! k))
+  | ["idx", id, c, skip] => on1 (toNat! id) (.indexByte (UInt8.ofNat (toNat! c)) (toNat! skip))
+  | ["cmax", id] => on1 (toNat! id) .calcMaxSize
+  | ["rtail", id, ms] => on1 (toNat! id) (.resetTail (toNat! ms))
   | ["book", id, bs, ms, n, seed] =>
     -- book(bookSize, maxSize); the kernel fills min(n, booked) bytes; bookAck
     match w.bufs.get? (toNat! id) with
     | none => return "nobuf"
     | some b =>
-      match b.book w.cfg (toNat! bs) (toNat! ms) with
-      | none => panicOut
-      | some (b, l) =>
-        let n := min (toNat! n) l
-        match b.bookAck (genBytes (toNat! seed) n) with
-        | none => panicOut
-        | some (b, _) =>
-          set { w with bufs := w.bufs.insert (toNat! id) b }
-          reply s!"ok k:{l}:{b.length}" [toNat! id]
+      match b.step w.cfg (.bookAck (toNat! bs) (toNat! ms) (genBytes (toNat! seed) (toNat! n))) with
+      | some (b, .num l) =>
+        set { w with bufs := w.bufs.insert (toNat! id) b }
+        reply s!"ok k:{l}:{b.length}" [toNat! id]
+      | _ => panicOut
   | ["slice", id, n, nid] =>
     match w.bufs.get? (toNat! id) with
     | none => return "nobuf"
